@@ -217,6 +217,7 @@ def getters(ctx):
 
 def timing_rule(ctx):
     cr = N("can_reach")
+    can_reach_kind_table(ctx)
     must_depend(ctx, "R3.can_reach-inputs", "T1", cr, "ret",
                 [field(CFG, "forbid_dead_head_trip"), call(N("minimal_duration_between_nodes_as_ref")), call(ND("end_time")), call(ND("start_time")),
                  call(ND("end_location")), call(ND("start_location")),
@@ -312,6 +313,70 @@ def shunting_case_tables(ctx):
             ctx.undecided(o, "no returning path for %s" % und[:3])
         else:
             ctx.ok(o, "all 16 kind pairs as documented")
+
+
+def can_reach_kind_table(ctx, rid="R3"):
+    """the documented depot rules of can_reach, for all 16 pairs of node kinds and whatever the configuration says:
+    nothing reaches a start depot, an end depot reaches nothing; otherwise a start depot reaches everything and everything
+    reaches an end depot (the forbid-dead-head flag applies to activities only: the overflow depot has no location)"""
+    from .. import optabs
+    cr = N("can_reach")
+    o, fd = ctx.require_fn("%s.can_reach.depot-rules" % rid, "T1+abs", cr,
+                           "can_reach answers by the depot kinds alone whenever a depot is involved (before any location or time test)")
+    if fd is None:
+        return
+    node = ctx.prog.adts.get(NODE)
+    if node is None:
+        ctx.undecided(o, "Node type not found")
+        return
+    names = [v["name"] for v in node["variants"]]
+    vi = {n: i for i, n in enumerate(names)}
+    if not {"StartDepot", "EndDepot"} <= set(vi):
+        ctx.undecided(o, "Node variants not recognised")
+        return
+    # the two node references: locals of type &Node that derive from exactly one of the two parameters
+    sides = {2: [], 3: []}
+    for l in range(fd.body.argc + 1, len(fd.body.locals)):
+        ty = fd.body.local_ty(l)
+        if not (ty.startswith("&") and ty.rstrip().endswith("Node") and "Node" in ty):
+            continue
+        at = fd.slice(seed_locals=[l], control=False)["atoms"]
+        p2, p3 = "param:2" in at, "param:3" in at
+        if p2 != p3:
+            sides[2 if p2 else 3].append(l)
+    if not sides[2] or not sides[3]:
+        ctx.undecided(o, "the references to the two nodes are not recognised")
+        return
+    preds = {ND("is_start_depot"): {vi["StartDepot"]}, ND("is_end_depot"): {vi["EndDepot"]},
+             ND("is_depot"): {vi["StartDepot"], vi["EndDepot"]}}
+    for nm, cal in (("Service", "is_service"), ("Maintenance", "is_maintenance")):
+        if nm in vi:
+            preds[ND(cal)] = {vi[nm]}
+    bad, und = [], []
+    for a in range(len(names)):
+        for b in range(len(names)):
+            if b == vi["StartDepot"] or a == vi["EndDepot"]:
+                want = "F"
+            elif a == vi["StartDepot"] or b == vi["EndDepot"]:
+                want = "T"
+            else:
+                continue
+            forced = {l: a for l in sides[2]}
+            forced.update({l: b for l in sides[3]})
+            recs = optabs.enum_cases(fd.body, forced, preds)
+            got = {r["ret"] if isinstance(r["ret"], str) else "?" for r in recs}
+            if not recs or "?" in got:
+                und.append((names[a], names[b], sorted(got)))
+            elif got != {want}:
+                bad.append("(%s -> %s): some path answers %s, documented is %s" % (names[a], names[b],
+                           "true" if want == "F" else "false", "false" if want == "F" else "true"))
+    if bad:
+        ctx.bad(o, "; ".join(bad[:3]) + " - e.g. with forbidDeadHeadTrips a depot (the overflow depot has no location) can no longer be "
+                "connected to an activity and the circulation becomes infeasible")
+    elif und:
+        ctx.undecided(o, "kind pairs not decided: %s" % und[:3])
+    else:
+        ctx.ok(o, "12 kind pairs with a depot involved: all paths answer as documented")
 
 
 def turnaround_branches(ctx, md):
